@@ -54,15 +54,24 @@ def do_import(prop, wt):
             json.dump(res, open(os.path.join(dst, "meta.json"), "w"), indent=1)
 
 def do_run(dirs):
+    """Runs in a scratch worktree of /repo's HEAD (SEED_WT, default /tmp/seedwt) with the outputs redirected
+    (VERIF_OUT), so that /repo, /verif/evidence and concurrently running checks are not disturbed."""
     if not dirs:
         dirs = sorted(glob.glob(os.path.join(VERIF, "seeded", "*")))
+    wt = os.environ.get("SEED_WT", "/tmp/seedwt")
+    outdir = wt + "-out"
+    if not os.path.exists(wt):
+        rc, o = sh("git worktree add --detach %s HEAD" % wt, "/repo")
+        if rc != 0:
+            print("cannot create worktree", o); sys.exit(2)
+    sh("git checkout -q --detach %s && git checkout -- . && git clean -fdq" % sh("git rev-parse HEAD", "/repo")[1].strip(), wt)
+    global ENV
+    ENV = dict(ENV, VERIF_REPO=wt, VERIF_OUT=outdir)
     for d in dirs:
+        d = os.path.abspath(d)
         meta = json.load(open(os.path.join(d, "meta.json")))
         prop = meta["property"]
-        rc, o = sh("git status --porcelain", "/repo")
-        if o.strip():
-            print("/repo not clean, abort"); sys.exit(2)
-        rc, o = sh("git apply %s" % os.path.join(d, "patch.diff"), "/repo")
+        rc, o = sh("git apply %s" % os.path.join(d, "patch.diff"), wt)
         if rc != 0:
             print(d, "patch does not apply", o); continue
         # SEED_CHECK=<Cxx> runs the check of another property against this change (cross-property detection)
@@ -71,12 +80,14 @@ def do_run(dirs):
             tier = os.environ.get("SEED_TIER", "quick")
             rc, o = sh("./check %s --tier %s %s" % (other or prop, tier, os.environ.get("SEED_ARGS", "")), VERIF, timeout=7200)
         finally:
-            sh("git checkout -- .", "/repo")
+            sh("git checkout -- .", wt)
         viol = [l for l in o.splitlines() if l.startswith("VIOLATION") or "  violation:" in l]
         key = tier if not other else "%s via %s" % (tier, other)
         meta.setdefault("detection", {})[key] = {"exit": rc, "detected": rc == 1, "violations": viol[:6]}
         json.dump(meta, open(os.path.join(d, "meta.json"), "w"), indent=1)
-        print(os.path.basename(d), "exit", rc, "DETECTED" if rc == 1 else "missed", (viol[1] if len(viol) > 1 else "")[:160])
+        print(os.path.basename(d), "exit", rc, "DETECTED" if rc == 1 else "missed", (viol[1] if len(viol) > 1 else "")[:160], flush=True)
+        if rc not in (0, 1):
+            print("   ", " | ".join(l for l in o.splitlines() if l.startswith("INTERNAL"))[:600], flush=True)
 
 if sys.argv[1] == "import":
     do_import(sys.argv[2], sys.argv[3])
